@@ -1284,9 +1284,14 @@ func (w *c11World) syncFollower(force bool) {
 	}
 	batch := 1 + w.r.Intn(64)
 	from := w.F.Height()
-	if err := w.F.SyncFrom(w.P, batch); err != nil {
+	// the follower's wall clock is not the producer's (it syncs minutes, days or years after the fact, or its clock is behind)
+	skew := simnet.ClockSkews[w.r.Intn(len(simnet.ClockSkews))]
+	var err error
+	simnet.WithClock(w.P.Frontier().Timestamp.Add(skew), func() { err = w.F.SyncFrom(w.P, batch) })
+	w.c.SetAdd("follower_clock_minus_chain_time", skew.String())
+	if err != nil {
 		w.failed = true
-		w.mon.violate("follower-rejects-momentum", map[string]interface{}{"error": err.Error(), "follower_height": w.F.Height(), "synced_from": from, "mode": w.mode})
+		w.mon.violate("follower-rejects-momentum", map[string]interface{}{"error": err.Error(), "follower_height": w.F.Height(), "synced_from": from, "mode": w.mode, "follower_clock_minus_chain_time": skew.String()})
 		return
 	}
 	w.syncs++
@@ -1333,7 +1338,11 @@ func (w *c11World) endFork() {
 	theirs := w.P.Detailed(w.forkAt + 1)
 	real := own != nil && theirs != nil && own.Momentum.Hash != theirs.Momentum.Hash
 	fh := w.F.Height()
-	if _, err := w.F.InsertChain(simnet.CloneBatch(w.P.Range(w.forkAt+1, w.P.Height()))); err != nil {
+	var err error
+	simnet.WithClock(w.P.Frontier().Timestamp.Add(simnet.ClockSkews[w.r.Intn(len(simnet.ClockSkews))]), func() {
+		_, err = w.F.InsertChain(simnet.CloneBatch(w.P.Range(w.forkAt+1, w.P.Height())))
+	})
+	if err != nil {
 		w.failed = true
 		w.mon.violate("follower-rejects-momentum reorg", map[string]interface{}{"error": err.Error(), "fork_at": w.forkAt, "follower_branch_head": fh,
 			"producer_height": w.P.Height(), "branches_differ": real})
